@@ -52,6 +52,8 @@ type SyncOnly = std::sync::MutexGuard<'static, i32>;
 fn assert_send<X: Send>() {}
 fn assert_sync<X: Sync>() {}
 fn assert_unpin<X: Unpin>() {}
+fn assert_timer<X: futures_intrusive::timer::Timer>() {}
+fn assert_local_timer<X: futures_intrusive::timer::LocalTimer>() {}
 '''
 
 # payload witnesses: name -> (type, Send, Sync, Clone)
@@ -235,6 +237,13 @@ def gen_probes(config, tier):
             out.append(('%s:%s' % (sid, tr), 'assert_%s::<%s>();' % (tr.lower(), ty), False, tr))
         if 'future' in sid:
             out.append(('%s:Unpin' % sid, 'assert_unpin::<%s>();' % ty, False, 'Unpin'))
+    # TimerFuture is Send without any bound of its own: the only gate is `impl Timer for GenericTimerService<M>
+    # where M: Sync`.  A local (NoopLock) service must not implement Timer; LocalTimer is the compiling twin.
+    out.append(('local-timer-service:Timer', 'assert_timer::<%sLocalTimerService>();' % TM, False, 'Sync'))
+    out.append(('local-timer-service:LocalTimer(control)', 'assert_local_timer::<%sLocalTimerService>();' % TM,
+                True, 'Sync'))
+    out.append(('timer-service[TsLock]:Timer(control)', 'assert_timer::<%sGenericTimerService<TsLock>>();' % TM,
+                True, 'Sync'))
     if config == 'std':
         for sid, ty, trs in STD_POSITIVE:
             for tr in trs:
